@@ -149,7 +149,8 @@ fn check_case(text: Option<&str>, script: &[Read]) -> CaseResult {
 	let class = text.map(classify_text).unwrap_or("absent");
 
 	let run = std::panic::catch_unwind(std::panic::AssertUnwindSafe(|| {
-		let params = Params::new(text);
+		// (every other case reads the owned copy)
+		let params = if script.len() % 2 == 1 { Params::new(text).into_owned() } else { Params::new(text) };
 		let mut outs = Vec::new();
 		let mut seq = params.sequence();
 		for rd in script {
@@ -269,20 +270,25 @@ fn check_case(text: Option<&str>, script: &[Read]) -> CaseResult {
 	// Whole-value and single-value parsing vs. plain parse.
 	let whole_text = trimmed.unwrap_or("null");
 	let r = std::panic::catch_unwind(std::panic::AssertUnwindSafe(|| {
-		let params = Params::new(text);
 		let mut diffs = Vec::new();
-		for ty in [Ty::VecVal, Ty::Val, Ty::Pair, Ty::Struct, Ty::OptU64] {
-			let got = with_ty!(ty, real_parse, &params);
-			let want = with_ty!(ty, ref_parse, whole_text);
-			if got != want {
-				diffs.push(("parse", format!("{ty:?}"), format!("{got:?}"), format!("{want:?}")));
+		// the borrowed view of the text, and the owned copy that async handlers and subscription callbacks receive
+		// (`into_owned()`): both are the same params
+		for owned in [false, true] {
+			let params = if owned { Params::new(text).into_owned() } else { Params::new(text) };
+			let (p, o) = if owned { ("parse-of-owned-copy", "one-of-owned-copy") } else { ("parse", "one") };
+			for ty in [Ty::VecVal, Ty::Val, Ty::Pair, Ty::Struct, Ty::OptU64] {
+				let got = with_ty!(ty, real_parse, &params);
+				let want = with_ty!(ty, ref_parse, whole_text);
+				if got != want {
+					diffs.push((p, format!("{ty:?}"), format!("{got:?}"), format!("{want:?}")));
+				}
 			}
-		}
-		for ty in [Ty::U64, Ty::Str, Ty::Val, Ty::Struct] {
-			let got = with_ty!(ty, real_one, &params);
-			let want = with_ty!(ty, ref_one, whole_text);
-			if got != want {
-				diffs.push(("one", format!("{ty:?}"), format!("{got:?}"), format!("{want:?}")));
+			for ty in [Ty::U64, Ty::Str, Ty::Val, Ty::Struct] {
+				let got = with_ty!(ty, real_one, &params);
+				let want = with_ty!(ty, ref_one, whole_text);
+				if got != want {
+					diffs.push((o, format!("{ty:?}"), format!("{got:?}"), format!("{want:?}")));
+				}
 			}
 		}
 		diffs
